@@ -7,7 +7,7 @@ fail=0
 for d in seeded/${1:-}*/; do
   n=$(basename "$d")
   prop=$(python3 -c "import json,sys; print(json.load(open('$d/meta.json')).get('breaks_property') or json.load(open('$d/meta.json'))['property'])")
-  out=$(./run_seeded.sh "$n" "$prop" quick 2>&1)
+  out=$(NO_REBUILD=1 ./run_seeded.sh "$n" "$prop" quick 2>&1)
   rc=$(echo "$out" | grep -o "exit=[0-9]*" | tail -1)
   if [ "$rc" = "exit=1" ] && grep -q "^VIOLATION property=$prop" "/verif/target/seeded-$n-$prop.log"; then
     echo "caught   $prop $n"
@@ -16,4 +16,6 @@ for d in seeded/${1:-}*/; do
   fi
 done
 git -C /repo status --porcelain | grep -q . && { echo "/repo left dirty!"; exit 2; }
+# no binary with a seeded change compiled in is left behind
+cargo build --release --offline >/dev/null 2>&1
 exit $fail
